@@ -9,12 +9,17 @@ def main():
     import numpy as np
     import radioactivedecay as rd
     D = rd.DEFAULTDATA
+    cases = json.load(sys.stdin)
+    if cases and cases[0].get("ds") == "synth":
+        import os
+        from radioactivedecay.decaydata import load_dataset
+        D = load_dataset("synth", os.environ["VERIF_SYNTH_DIR"], load_sympy=True)
     sd = D.scipy_data
     out = []
-    for c in json.load(sys.stdin):
+    for c in cases:
         r = {}
         try:
-            inv = rd.Inventory({k: float.fromhex(v) for k, v in c["contents"].items()}, "num")
+            inv = rd.Inventory({k: float.fromhex(v) for k, v in c["contents"].items()}, "num", True, D)
             t = float.fromhex(c["t"])
             dec = inv.decay(t, c["tunit"]).numbers()
             secs = inv._convert_decay_time(t, c["tunit"])
